@@ -463,6 +463,12 @@ class Solver:
                 st.samples.append({'label': label, 'smt2_head': txt[:1500], 'smt2_bytes': len(txt), '_full': txt if len(txt) < 300000 else None})
             r = self.s.check()
             rs = str(r)
+            if rs == 'unknown' and lin:
+                # a linear query that timed out (loaded machine): once more with five times the budget
+                self.s.set('timeout', self.timeout_ms * 5)
+                r = self.s.check()
+                rs = str(r)
+                st.retried = getattr(st, 'retried', 0) + 1
             if self.keep_sample and st.samples and st.samples[-1].get('label') == label and 'z3' not in st.samples[-1]:
                 st.samples[-1]['z3'] = rs
             model = None
